@@ -186,6 +186,27 @@ def matrix_cells(rng):
     return {"e": e, "style": style, "holey": holey}, cells
 
 
+def matrix_representable(t):
+    """the Matrix index is a grid: period starts every `exp` months from the first, development lags
+    every min(exp, dev) months from the smallest, where exp / dev are the gcd spacings of the period
+    boundaries / of the evaluation months. A holey triangle whose remaining lags are not congruent
+    modulo that step has no place on the grid (the form cannot hold it): outside the property."""
+    import math
+    bounds = sorted({month_id(c.period_start) for c in t} | {month_id(c.period_end) + 1 for c in t})
+    exp = 0
+    for a, b in zip(bounds, bounds[1:]):
+        exp = math.gcd(exp, b - a)
+    evs = sorted({month_id(c.evaluation_date) for c in t})
+    dev = 0
+    for a, b in zip(evs, evs[1:]):
+        dev = math.gcd(dev, b - a)
+    if not exp or not dev:
+        return False
+    step = min(exp, dev)
+    lags = [month_id(c.evaluation_date) - month_id(c.period_end) for c in t]
+    return all((x - min(lags)) % step == 0 for x in lags)
+
+
 def divmod_ym(mid):
     y, m = divmod(mid, 12)
     return y, m + 1
@@ -364,6 +385,8 @@ def correspondence(ctx):
             ctx.case(digest=json.dumps(["matrix", [canon_cell(w) for w in wire]], sort_keys=True), nontrivial=len(t) > 1,
                      sample={"stream": "matrix", **desc, "cells": len(t)} if i < 1 else None)
             case = {"cells": wire, **desc}
+            desc["representable"] = matrix_representable(t)
+            ctx.count("matrix/representable" if desc["representable"] else "matrix/lags off the index grid (no Spec)")
             st, m = call(triangle_to_matrix, t)
             if st == "ok":
                 ix = m.index
@@ -380,7 +403,7 @@ def correspondence(ctx):
                 mat, back = {"err": m}, {"err": m}
                 ctx.count("matrix/refused")
             reqs.append({"op": "matrix", "cells": wire, "impl_back": back.get("ok")})
-            info.append(("matrix", case, mat, back))
+            info.append(("matrix" if desc["representable"] else "matrix-offgrid", case, mat, back))
 
         outs = drv.run(reqs)
 
@@ -439,7 +462,7 @@ def correspondence(ctx):
             if "ok" in mat:
                 if "err" in back:
                     ctx.fail(f"matrix_to_triangle raised {back['err']} on triangle_to_matrix's output", case)
-                elif out["spec"] is False:
+                elif out["spec"] is False and kind == "matrix":
                     ctx.fail("Matrix round trip is not the original triangle", case, {"loaded": back["ok"]})
             mm = out["matrix"]
             if ("err" in mm) != ("err" in mat):
